@@ -320,6 +320,11 @@ class Machine(Interp):
         return out
 
     def call_indirect(self, st, fv, args, node, rty, cexpr):
+        t = st.canon(fv.t)
+        if t[0] == 'fn' and t[1] not in ('send_hello',) and (t[1] in self.summaries or self.prog.resolve(self.ix, t[1])[1] is not None
+                                                              or (self.port is not None and self.port.handles(t[1]))):
+            # a call through a pointer whose target is known (a const table of handlers / writers): the direct call
+            return self.call(st, t[1], args, node, rty)
         name = cexpr.get('name') if cexpr['kind'] == 'MemberExpr' else '?'
         st.effect(('indirect', name, tuple(st.canon(a.t) for a in args)))
         return [(st, Val(rty, ZERO if rty.kind == 'void' else ('sym', st.fresh('indirect'), *self.range_of(rty))))]
